@@ -71,7 +71,31 @@ class CallMixin:
     def quantified(self, kind, g, st):
         if not self.spec:
             raise Unsupported("all/any/sum over a generator in code (line %d)" % g.lineno)
-        bvs, guards = [], []
+        # a leading generator over a concrete list/tuple is expanded into a conjunction / disjunction
+        first = g.generators[0]
+        if not (isinstance(first.iter, ast.Call) and isinstance(first.iter.func, ast.Name) and first.iter.func.id == "range"):
+            it0 = self.eval(first.iter, st)
+            items = it0.items if isinstance(it0, SList) else it0
+            if isinstance(items, (list, tuple)) and not (items and items[0] == "range" and isinstance(items, tuple)):
+                if kind == "sum" or first.ifs or not isinstance(first.target, ast.Name):
+                    raise Unsupported("generator form (line %d)" % g.lineno)
+                parts = []
+                saved = st.vars.get(first.target.id, None)
+                had = first.target.id in st.vars
+                for x in items:
+                    st.vars[first.target.id] = x
+                    if len(g.generators) > 1:
+                        sub = ast.GeneratorExp(elt=g.elt, generators=g.generators[1:])
+                        ast.copy_location(sub, g)
+                        parts.append(self.quantified(kind, sub, st))
+                    else:
+                        parts.append(as_bool(self.eval(g.elt, st)))
+                if had:
+                    st.vars[first.target.id] = saved
+                else:
+                    st.vars.pop(first.target.id, None)
+                return band(*parts) if kind == "all" else bor(*parts)
+        bvs, guards, bounds = [], [], []
         saved = dict(self.bound_vars)
         try:
             for comp in g.generators:
@@ -86,6 +110,7 @@ class CallMixin:
                 if it[3] != 1:
                     raise Unsupported("quantifier with step")
                 guards += [v >= zi(it[1]), v < zi(it[2])]
+                bounds.append((zi(it[1]), zi(it[2])))
                 for cond in comp.ifs:
                     guards.append(zb(self.eval(cond, st)))
             if kind == "sum":
@@ -101,14 +126,13 @@ class CallMixin:
             # forall k in [lo, t+1): P(k)  ==  forall k in [lo, t): P(k)  and  (lo <= t -> P(t)).  Splitting off the last
             # element (the one a loop iteration has just produced) is what makes invariant-preservation goals easy.
             for gi, v in enumerate(bvs):
-                lo_g, hi_g = guards[2 * gi], guards[2 * gi + 1]
                 if len(guards) != 2 * len(bvs):
                     break
-                hi_t = z3.simplify(hi_g.arg(1))
+                lo_t, hi_t = bounds[gi]
+                hi_t = z3.simplify(hi_t)
                 last = _minus_one(hi_t)
                 if last is None:
                     continue
-                lo_t = lo_g.arg(1)
                 others = [g for j, g in enumerate(guards) if j not in (2 * gi, 2 * gi + 1)]
                 rest_bvs = [b for b in bvs if b is not v]
                 inst_body = z3.substitute(body, (v, last))
@@ -235,7 +259,8 @@ class CallMixin:
             else:
                 ax = uf(*bound) == zb(body)
                 pat = [uf(*bound)]
-            self.axioms.append(z3.ForAll(bound, ax, patterns=pat) if bound else ax)
+            if sp.name not in (self.opt("opaque", []) or []):  # opaque: the definition is not needed (and not revealed) here
+                self.axioms.append(z3.ForAll(bound, ax, patterns=pat) if bound else ax)
         uf = self._uf_cache[key]
         actual = []
         for p, a in scal:
